@@ -237,6 +237,92 @@ func TokenizeNQuad(line string) RefQuad {
 	return q
 }
 
+// RefUnescape interprets ECHAR and UCHAR sequences (numeric escapes that
+// are not Unicode scalar values give U+FFFD, as utf8 encoding does).
+func RefUnescape(d []rune) string {
+	var sb strings.Builder
+	for i := 0; i < len(d); i++ {
+		if d[i] != '\\' || i+1 >= len(d) {
+			sb.WriteRune(d[i])
+			continue
+		}
+		if n := uchar(d, i); n != 0 {
+			var v rune
+			for _, h := range d[i+2 : i+n] {
+				v <<= 4
+				switch {
+				case '0' <= h && h <= '9':
+					v |= h - '0'
+				case 'a' <= h && h <= 'f':
+					v |= h - 'a' + 10
+				default:
+					v |= h - 'A' + 10
+				}
+				if v > 0x10ffff {
+					v = 0x110000 // saturate: not a scalar value
+				}
+			}
+			if v > 0x10ffff || 0xd800 <= v && v <= 0xdfff {
+				v = 0xfffd
+			}
+			sb.WriteRune(v)
+			i += n - 1
+			continue
+		}
+		i++
+		switch d[i] {
+		case 't':
+			sb.WriteByte('\t')
+		case 'b':
+			sb.WriteByte('\b')
+		case 'n':
+			sb.WriteByte('\n')
+		case 'r':
+			sb.WriteByte('\r')
+		case 'f':
+			sb.WriteByte('\f')
+		default:
+			sb.WriteRune(d[i])
+		}
+	}
+	return sb.String()
+}
+
+// refParts splits a well-formed term token into the parts Term.Parts
+// documents.
+func refParts(tok string) (text, qual string, kind rdf.Kind, ok bool) {
+	d := []rune(tok)
+	switch {
+	case len(d) >= 2 && d[0] == '<' && scanIRIREF(d, 0) == len(d):
+		return RefUnescape(d[1 : len(d)-1]), "", rdf.IRI, true
+	case strings.HasPrefix(tok, "_:") && scanBlank(d, 0) == len(d):
+		return tok[2:], "", rdf.Blank, true
+	case len(d) >= 2 && d[0] == '"' && scanLiteral(d, 0) == len(d):
+		// closing quote: the first unescaped one
+		j := 1
+		for d[j] != '"' {
+			if d[j] == '\\' {
+				if n := uchar(d, j); n != 0 {
+					j += n
+					continue
+				}
+				j++
+			}
+			j++
+		}
+		text = RefUnescape(d[1:j])
+		rest := d[j+1:]
+		switch {
+		case len(rest) > 2 && rest[0] == '^':
+			qual = RefUnescape(rest[3 : len(rest)-1])
+		case len(rest) > 0:
+			qual = string(rest)
+		}
+		return text, qual, rdf.Literal, true
+	}
+	return "", "", rdf.Invalid, false
+}
+
 // ---- ParseNQuad on hostile text --------------------------------------------------
 
 func termKinds(pos int) string {
@@ -302,6 +388,13 @@ func NQuad(line string) (res Result) {
 			okKind = kind == rdf.IRI
 		case 2:
 			okKind = kind == rdf.IRI || kind == rdf.Blank || kind == rdf.Literal
+		}
+		if perr == nil && okKind {
+			var text, qual string
+			try(func() { text, qual, _, _ = t.Parts() })
+			if wt, wq, wk, ok := refParts(t.Value); ok && (wt != text || wq != qual || wk != kind) {
+				res.add("rdf.Term.Parts|parsed-term|differs-from-escape-rules", "term %q: Parts() = (%q, %q, %v), the N-Quads escape rules give (%q, %q, %v)", clip(t.Value, 80), clip(text, 80), clip(qual, 80), kind, clip(wt, 80), clip(wq, 80), wk)
+			}
 		}
 		if perr != nil || !okKind {
 			bad = true
